@@ -29,6 +29,29 @@ func (g *G) exprInfo(want Ty, depth int) (*lang.Node, *vinfo) {
 	}
 	info := &vinfo{t: want}
 	var e *lang.Node
+	if len(g.o.HostMods) > 0 && g.chance(60, "hostModAttr") {
+		// attribute of a builtin (Go) module
+		attr := map[Ty]string{TInt: "answer", TStr: "name", TFloat: "pi", TBool: "flag", TArr: "list", TMap: "conf"}[want]
+		if attr != "" {
+			g.feat("host-module-attr")
+			if attr == "list" {
+				info.elem, info.alen = TInt, 3
+			}
+			if attr == "conf" {
+				info.keys = []string{"a", "b"}
+			}
+			return lang.Sel(lang.Import(g.o.HostMods[0]), attr), info
+		}
+		if want == TInt {
+			g.feat("host-module-call")
+			return lang.Call(lang.Sel(lang.Import(g.o.HostMods[0]), "count"), g.expr(TAny, 1), g.expr(TAny, 1)), info
+		}
+	}
+	if len(g.o.Modules) > 0 && g.chance(40, "srcModImport") {
+		g.feat("source-module-import")
+		info.t = TAny
+		return lang.Import(g.o.Modules[g.draw(len(g.o.Modules), "whichMod")]), info
+	}
 	switch want {
 	case TInt:
 		e = g.intExpr(depth)
